@@ -135,4 +135,232 @@ theorem goCmp_sameNumber_zero (a b : Value) (h : SameNumber a b) (d : PairDom a 
   simp only [cmp, e, cmpInt]
   simp
 
+/-! ## 3. criteria that differ only in the Go kind of numeric literals -/
+
+/-- operands: equal, or two literals that are the same number -/
+def Operand.Same (x y : Operand) : Prop := x = y ∨ ∃ a b, x = .lit a ∧ y = .lit b ∧ SameNumber a b
+
+/-- operand lists of `In` / `Contains`: same length, pairwise `Operand.Same` -/
+inductive Operand.SameL : List Operand → List Operand → Prop
+  | nil : Operand.SameL [] []
+  | cons {x y : Operand} {xs ys : List Operand} :
+      Operand.Same x y → Operand.SameL xs ys → Operand.SameL (x :: xs) (y :: ys)
+
+/-- same criteria tree; literal operands pairwise equal or the same number -/
+inductive Crit.SameUpToKinds : Crit → Crit → Prop
+  | exists_ (f : Bytes) : Crit.SameUpToKinds (.exists_ f) (.exists_ f)
+  | cmp (op : CmpOp) (f : Bytes) {x y : Operand} :
+      Operand.Same x y → Crit.SameUpToKinds (.cmp op f x) (.cmp op f y)
+  | like (f p : Bytes) : Crit.SameUpToKinds (.like f p) (.like f p)
+  | isIn (f : Bytes) {xs ys : List Operand} :
+      Operand.SameL xs ys → Crit.SameUpToKinds (.isIn f xs) (.isIn f ys)
+  | contains (f : Bytes) {xs ys : List Operand} :
+      Operand.SameL xs ys → Crit.SameUpToKinds (.contains f xs) (.contains f ys)
+  | fn (id : Nat) : Crit.SameUpToKinds (.fn id) (.fn id)
+  | and {a a' b b' : Crit} :
+      Crit.SameUpToKinds a a' → Crit.SameUpToKinds b b' → Crit.SameUpToKinds (.and a b) (.and a' b')
+  | or {a a' b b' : Crit} :
+      Crit.SameUpToKinds a a' → Crit.SameUpToKinds b b' → Crit.SameUpToKinds (.or a b) (.or a' b')
+  | not {a a' : Crit} : Crit.SameUpToKinds a a' → Crit.SameUpToKinds (.not a) (.not a')
+
+theorem Operand.Same.refl (x : Operand) : Operand.Same x x := Or.inl rfl
+
+theorem Operand.SameL.refl : (xs : List Operand) → Operand.SameL xs xs
+  | [] => .nil
+  | x :: xs => .cons (Operand.Same.refl x) (Operand.SameL.refl xs)
+
+theorem Crit.SameUpToKinds.refl : (c : Crit) → Crit.SameUpToKinds c c
+  | .exists_ f => .exists_ f
+  | .cmp op f x => .cmp op f (Operand.Same.refl x)
+  | .like f p => .like f p
+  | .isIn f xs => .isIn f (Operand.SameL.refl xs)
+  | .contains f xs => .contains f (Operand.SameL.refl xs)
+  | .fn id => .fn id
+  | .and a b => .and (Crit.SameUpToKinds.refl a) (Crit.SameUpToKinds.refl b)
+  | .or a b => .or (Crit.SameUpToKinds.refl a) (Crit.SameUpToKinds.refl b)
+  | .not a => .not (Crit.SameUpToKinds.refl a)
+
+/-- domain: every number of a literal operand is exactly representable -/
+def Operand.LitOK : Operand → Prop
+  | .lit v => NumsOK v
+  | .ref _ => True
+
+/-- domain: every number of every literal operand of the criteria is exactly representable -/
+def Crit.LitsOK : Crit → Prop
+  | .cmp _ _ x => x.LitOK
+  | .isIn _ xs => ∀ x ∈ xs, x.LitOK
+  | .contains _ xs => ∀ x ∈ xs, x.LitOK
+  | .and a b => a.LitsOK ∧ b.LitsOK
+  | .or a b => a.LitsOK ∧ b.LitsOK
+  | .not a => a.LitsOK
+  | _ => True
+
+/-! ### the document side of the domain: every value read from a document of exact numbers is exact -/
+
+theorem lookupKey_numsOK (k : Bytes) : (d : Doc) → AllNumKV numOK d → (v : Value) →
+    lookupKey k d = some v → AllNum numOK v
+  | [], _, v, h => by simp [lookupKey] at h
+  | (k', w) :: t, hd, v, h => by
+    simp only [AllNumKV] at hd
+    simp only [lookupKey] at h
+    by_cases e : k = k'
+    · rw [if_pos e] at h
+      injection h with h
+      rw [← h]; exact hd.1
+    · rw [if_neg e] at h
+      exact lookupKey_numsOK k t hd.2 v h
+
+theorem getPath_numsOK : (p : List Bytes) → (d : Doc) → AllNumKV numOK d → (v : Value) →
+    getPath d p = some v → AllNum numOK v
+  | [], d, _, v, h => by simp [getPath] at h
+  | [k], d, hd, v, h => by
+    simp only [getPath] at h
+    exact lookupKey_numsOK k d hd v h
+  | k :: k2 :: rest, d, hd, v, h => by
+    simp only [getPath] at h
+    cases hl : lookupKey k d with
+    | none => simp [hl] at h
+    | some w =>
+      have hw := lookupKey_numsOK k d hd w hl
+      cases w with
+      | obj sub =>
+        simp only [hl] at h
+        simp only [AllNum] at hw
+        exact getPath_numsOK (k2 :: rest) sub hw v h
+      | null => simp [hl] at h
+      | num _ => simp [hl] at h
+      | str _ => simp [hl] at h
+      | bool _ => simp [hl] at h
+      | time _ _ => simp [hl] at h
+      | arr _ => simp [hl] at h
+
+/-- a document whose numbers are all exactly representable only yields such values -/
+theorem get_numsOK (d : Doc) (hd : NumsOK (.obj d)) (f : Bytes) : NumsOK (d.get f) := by
+  have hd' : AllNumKV numOK d := by simpa [NumsOK, AllNum] using hd
+  unfold Doc.get
+  cases h : getPath d (splitDots f) with
+  | none => simp [NumsOK, AllNum]
+  | some v => exact getPath_numsOK _ d hd' v h
+
+theorem allNumL_mem (P : Num → Prop) : (ys : List Value) → AllNumL P ys → ∀ y ∈ ys, AllNum P y
+  | [], _, y, hy => by simp at hy
+  | z :: zs, h, y, hy => by
+    simp only [AllNumL] at h
+    rcases List.mem_cons.1 hy with e | hm
+    · rw [e]; exact h.1
+    · exact allNumL_mem P zs h.2 y hm
+
+/-! ### evaluation -/
+
+theorem deref_lit_num (d : Doc) (m : Num) : deref d (.lit (.num m)) = .num m := rfl
+
+/-- against any exact value, the two operands compare alike on both sides -/
+theorem goCmp_deref_same (d : Doc) (x y : Operand) (h : Operand.Same x y)
+    (hx : x.LitOK) (hy : y.LitOK) (v : Value) (hv : NumsOK v) :
+    goCmp v (deref d x) = goCmp v (deref d y) ∧ goCmp (deref d x) v = goCmp (deref d y) v := by
+  rcases h with e | ⟨a, b, ex, ey, hs⟩
+  · rw [e]; exact ⟨rfl, rfl⟩
+  · obtain ⟨m, n, ea, eb, hk⟩ := hs
+    subst ex; subst ey; subst ea; subst eb
+    rw [deref_lit_num, deref_lit_num]
+    exact goCmp_sameNumber_numsOK v (.num m) (.num n) ⟨m, n, rfl, rfl, hk⟩ hv hx hy
+
+theorem satCmp_same (d : Doc) (hd : NumsOK (.obj d)) (op : CmpOp) (f : Bytes) (x y : Operand)
+    (h : Operand.Same x y) (hx : x.LitOK) (hy : y.LitOK) :
+    satCmp d op f x = satCmp d op f y := by
+  have hc := (goCmp_deref_same d x y h hx hy (d.get f) (get_numsOK d hd f)).1
+  unfold satCmp
+  cases op <;> simp only [hc]
+
+theorem any_isIn_same (d : Doc) (v : Value) (hv : NumsOK v) : {xs ys : List Operand} →
+    Operand.SameL xs ys → (∀ x ∈ xs, x.LitOK) → (∀ y ∈ ys, y.LitOK) →
+    xs.any (fun x => goCmp (deref d x) v == 0) = ys.any (fun x => goCmp (deref d x) v == 0)
+  | _, _, .nil, _, _ => rfl
+  | _, _, .cons (x := x) (y := y) (xs := xs) (ys := ys) hxy hrest, hx, hy => by
+    have h1 := (goCmp_deref_same d x y hxy (hx x (List.mem_cons_self ..)) (hy y (List.mem_cons_self ..)) v hv).2
+    have h2 := any_isIn_same d v hv hrest
+      (fun z hz => hx z (List.mem_cons_of_mem _ hz)) (fun z hz => hy z (List.mem_cons_of_mem _ hz))
+    simp only [List.any_cons, h1, h2]
+
+theorem any_elem_same (d : Doc) (x y : Operand) (h : Operand.Same x y) (hx : x.LitOK) (hy : y.LitOK) :
+    (zs : List Value) → AllNumL numOK zs →
+    zs.any (fun z => goCmp (deref d x) z == 0) = zs.any (fun z => goCmp (deref d y) z == 0)
+  | [], _ => rfl
+  | z :: zs, hz => by
+    simp only [AllNumL] at hz
+    have h1 := (goCmp_deref_same d x y h hx hy z hz.1).2
+    have h2 := any_elem_same d x y h hx hy zs hz.2
+    simp only [List.any_cons, h1, h2]
+
+theorem all_contains_same (d : Doc) (zs : List Value) (hz : AllNumL numOK zs) : {xs ys : List Operand} →
+    Operand.SameL xs ys → (∀ x ∈ xs, x.LitOK) → (∀ y ∈ ys, y.LitOK) →
+    xs.all (fun x => zs.any (fun z => goCmp (deref d x) z == 0)) =
+      ys.all (fun x => zs.any (fun z => goCmp (deref d x) z == 0))
+  | _, _, .nil, _, _ => rfl
+  | _, _, .cons (x := x) (y := y) (xs := xs) (ys := ys) hxy hrest, hx, hy => by
+    have h1 := any_elem_same d x y hxy (hx x (List.mem_cons_self ..)) (hy y (List.mem_cons_self ..)) zs hz
+    have h2 := all_contains_same d zs hz hrest
+      (fun z hz => hx z (List.mem_cons_of_mem _ hz)) (fun z hz => hy z (List.mem_cons_of_mem _ hz))
+    simp only [List.all_cons, h1, h2]
+
+variable (likeFn : LikeFn) (fnFam : FnFam)
+
+/-- C16, last sentence: a criteria yields the same result on every document whatever Go numeric
+    type its literals were supplied as — for documents and literals whose numbers are exactly
+    representable (integers within ±2^53, non-NaN doubles).  All operators are covered. -/
+theorem sat_sameUpToKinds (d : Doc) (hd : NumsOK (.obj d)) : {c c' : Crit} →
+    Crit.SameUpToKinds c c' → c.LitsOK → c'.LitsOK →
+    sat likeFn fnFam d c = sat likeFn fnFam d c'
+  | _, _, .exists_ _, _, _ => rfl
+  | _, _, .cmp op f hxy, hc, hc' => by
+    simp only [sat]
+    exact satCmp_same d hd op f _ _ hxy hc hc'
+  | _, _, .like _ _, _, _ => rfl
+  | _, _, .isIn f hl, hc, hc' => by
+    simp only [sat]
+    exact any_isIn_same d (d.get f) (get_numsOK d hd f) hl hc hc'
+  | _, _, .contains f hl, hc, hc' => by
+    simp only [sat]
+    have hv := get_numsOK d hd f
+    cases hg : d.get f with
+    | arr zs =>
+      rw [hg] at hv
+      exact all_contains_same d zs (by simpa [NumsOK, AllNum] using hv) hl hc hc'
+    | null => rfl
+    | num _ => rfl
+    | str _ => rfl
+    | bool _ => rfl
+    | time _ _ => rfl
+    | obj _ => rfl
+  | _, _, .fn _, _, _ => rfl
+  | _, _, .and ha hb, hc, hc' => by
+    simp only [sat, sat_sameUpToKinds d hd ha hc.1 hc'.1, sat_sameUpToKinds d hd hb hc.2 hc'.2]
+  | _, _, .or ha hb, hc, hc' => by
+    simp only [sat, sat_sameUpToKinds d hd ha hc.1 hc'.1, sat_sameUpToKinds d hd hb hc.2 hc'.2]
+  | _, _, .not ha, hc, hc' => by
+    simp only [sat, sat_sameUpToKinds d hd ha hc hc']
+
+/-- the same for an optional criteria (a query with or without `Where`) -/
+theorem satOpt_sameUpToKinds (d : Doc) (hd : NumsOK (.obj d)) (c c' : Crit)
+    (h : Crit.SameUpToKinds c c') (hc : c.LitsOK) (hc' : c'.LitsOK) :
+    satOpt likeFn fnFam d (some c) = satOpt likeFn fnFam d (some c') :=
+  sat_sameUpToKinds likeFn fnFam d hd h hc hc'
+
+/-- instance: `Eq("f", int(n))`, `Eq("f", uint(n))` and `Eq("f", float64(n))` select the same
+    documents, for every comparison operator, `n ≤ 2^53` -/
+theorem cmp_literal_kind_irrelevant (d : Doc) (hd : NumsOK (.obj d)) (op : CmpOp) (f : Bytes)
+    (n : Nat) (hn : n ≤ 2^53) :
+    sat likeFn fnFam d (.cmp op f (.lit (.num (.int (n : Int))))) =
+      sat likeFn fnFam d (.cmp op f (.lit (.num (.uint n)))) ∧
+    sat likeFn fnFam d (.cmp op f (.lit (.num (.int (n : Int))))) =
+      sat likeFn fnFam d (.cmp op f (.lit (.num (.float (ofNatMag n))))) := by
+  have hk := sameNumber_kinds n hn
+  have hif : SameNumber (.num (.int (n : Int))) (.num (.float (ofNatMag n))) := by
+    have := hk.2.1; rw [ofInt_natCast] at this; exact this
+  constructor
+  · exact sat_sameUpToKinds likeFn fnFam d hd (.cmp op f (Or.inr ⟨_, _, rfl, rfl, hk.1⟩))
+      hk.2.2.2.2.1 hk.2.2.2.2.2.1
+  · exact sat_sameUpToKinds likeFn fnFam d hd (.cmp op f (Or.inr ⟨_, _, rfl, rfl, hif⟩))
+      hk.2.2.2.2.1 hk.2.2.2.2.2.2
+
 end CV
